@@ -332,7 +332,7 @@ func (f *Frame) loopWrites(L *Loop) (mems map[string]string, maps map[string]*ty
 			}
 			if common.IsInvoke() {
 				name := ifaceMethodName(common)
-				if _, ok := f.c.W.externFrames[name]; ok {
+				if _, ok := f.c.W.externKey(f.scopePkg(), name); ok {
 					return
 				}
 				if w, ok := f.c.W.modelWrites[name]; ok {
@@ -350,7 +350,7 @@ func (f *Frame) loopWrites(L *Loop) (mems map[string]string, maps map[string]*ty
 				return
 			}
 			key := fnKey(callee)
-			if _, ok := f.c.W.externFrames[key]; ok {
+			if _, ok := f.c.W.externKey(f.scopePkg(), key); ok {
 				return
 			}
 			if w, ok := f.c.W.modelWrites[key]; ok {
